@@ -85,7 +85,7 @@ class MinimizerScipyOptimize(MinimizerBase):
 
     @parameter_values.setter
     def parameter_values(self, new_values):
-        self._par_val = np.array(new_values)
+        self._par_val = np.array(new_values, dtype=float)  # element-wise stores must not truncate
         self.reset()
 
     @property
